@@ -12,7 +12,7 @@
     (byte strings of any content and length) and addresses, starting from NewRoutingTable. *)
 From Coq Require Import List ZArith Sorted Lia.
 Import ListNotations.
-From Ont Require Import Lib.Bytes Gen.KBucketGen Model.KBucket Proofs.C37.
+From Ont Require Import Lib.Bytes Gen.KBucketGen Model.KBucket Model.KBucketConc Proofs.C37 Proofs.C37Conc.
 
 (** The full statement for one configuration (bucket size, local id): every history runs to
     completion ([exec] is [None] when a call would not return); the final table has every peer id
@@ -85,6 +85,43 @@ Theorem c37_cpl_is_shared_prefix_bits :
     cpl a b = 8 * KB_ID_LEN - N.size_nat (xor_dist a b).
 Proof. exact cpl_numeric. Qed.
 Print Assumptions c37_cpl_is_shared_prefix_bits.
+
+(** Concurrent callers.  The theorems above are about sequential histories; the table is used
+    by several goroutines, and its claim is that Update / Remove / NearestPeers are atomic with
+    respect to each other because each runs under the one table lock.  That discipline is read from
+    the source on every run ([kb_locks_update], [kb_locks_remove], [kb_locks_nearest] in
+    Gen/KBucketGen.v: the lock, unlock and rt.Buckets events of each method, called table methods
+    inlined) and [lock_discipline_ok] computes whether Update and Remove are one exclusive section
+    and NearestPeers one shared section.  Model/KBucketConc.v lets any number of threads run
+    non-atomic calls (take the lock, read the table, leave it half written, write the result of the
+    sequential model, release) under any schedule.  Under the discipline found in the source, in
+    every reachable configuration: nobody has read a half-written table; the shared table is
+    [exec] of the writes in the order they took the lock, and is [table_ok]; every table a
+    NearestPeers call saw is the table of a sequential history, so its answer is [nearest_spec].
+    The proof needs [lock_discipline_ok] to compute to [true]: a method that checks under the
+    shared lock and inserts under the exclusive one without re-checking no longer has that shape
+    ([c37_lock_discipline_rejects_lock_upgrade]) and this theorem stops checking. *)
+Theorem c37_concurrent_callers :
+  forall (size : Z) (local : peer_id) (progs : list (list op)) (c : conf),
+    (1 <= size)%Z -> length local = KB_ID_LEN ->
+    creach lock_discipline_ok (init_conf (new_table size local) progs) c ->
+    concurrent_ok size local c.
+Proof. exact concurrent_callers. Qed.
+Print Assumptions c37_concurrent_callers.
+
+(** Without the discipline the model does exhibit a torn read (so the lock is not decoration). *)
+Theorem c37_lock_needed :
+  forall (size : Z) (local id : peer_id),
+    exists c, creach false (init_conf (new_table size local) [[OUpdate id 1%N]; [ONearest id 1%Z]]) c /\
+              c_bad c = true.
+Proof. exact undisciplined_reads_torn. Qed.
+Print Assumptions c37_lock_needed.
+
+Example c37_lock_discipline_rejects_lock_upgrade :
+  exclusive_shape [KRLock; KDeferRUnlock; KTouch; KLock; KDeferUnlock; KTouch] = false /\
+  exclusive_shape [KLock; KDeferUnlock; KTouch] = true /\
+  shared_shape [KRLock; KTouch; KRUnlock] = true.
+Proof. repeat split. Qed.
 
 (** Non-vacuity, and the F14 scenario itself: bucket size 1, the local id inserted first, then
     two peers at common prefix lengths 0 and 159.  The history runs to completion, the table has
